@@ -89,6 +89,15 @@ def run(tier, seed):
                 dtype_arg = np.uint8 if k % 5 == 0 else None
                 want = codes.copy() if dtype_arg is not None else (ulaw if coding == "ulaw" else alaw)[codes]
             want = want.reshape((frames,) if nchan == 1 else (frames, nchan))
+            if k % 7 == 3:
+                # a well-formed header whose field text (and end_head) runs past byte 1024
+                extra = ["speaker_id_%02d -s8 ABCDEFGH" % j for j in range(40)]
+                if coding == "pcm":
+                    hdr = sph_util.header(nchan, promised, 2, bf, "pcm", 2048 if len(extra) < 60 else 4096, extra=extra)
+                else:
+                    hdr = sph_util.header(nchan, promised, 1, "1", coding, 2048, extra=extra)
+                if hdr.index(b"end_head") < 1024:
+                    raise common.MachineryError("long-header case does not reach past byte 1024")
             blob = hdr + raw.tobytes()
             with warnings.catch_warnings(record=True) as w:
                 warnings.simplefilter("always")
